@@ -19,6 +19,7 @@ import traceback
 import common  # noqa: F401  (sets nothing; keeps path conventions)
 import progen
 import c08_shapes
+import c08_corpus
 import c08_export as X
 import c08_cgen as G
 
@@ -299,16 +300,20 @@ def main(argv):
     rec = X.Recorder()
     rec.install()
     with open(outp, "w") as fo:
-        for i in range(start, start + count):
+        corpus = c08_corpus.modules() if start < 0 else []
+        pre = "c" if start < 0 else "g"
+        for i in (range(len(corpus)) if start < 0 else range(start, start + count)):
             rng = random.Random("c08:%d:%d" % (seed, i))
-            if i % 5 in (1, 3):  # two fifths: shapes aimed at C08 (c08_shapes); the rest: the general generator
+            if start < 0:
+                src = corpus[i][1]
+            elif i % 5 in (1, 3):  # two fifths: shapes aimed at C08 (c08_shapes); the rest: the general generator
                 src = c08_shapes.ShapeGen(rng, "h%d" % i).module("foo")
             else:
                 pg = progen.ProgGen(rng, uid="q%d" % i, features=feats)
                 src = pg.module("foo")
             mod, err = progen.load_module(src, "c08")
             if mod is None:
-                fo.write(json.dumps({"tag": "g%d" % i, "status": "frontend-rejected", "error": err, "src": src}) + "\n")
+                fo.write(json.dumps({"tag": "%s%d" % (pre, i), "status": "frontend-rejected", "error": err, "src": src}) + "\n")
                 continue
             p0 = getattr(mod, "foo")
             configs = [v for v in vars(mod).values() if isinstance(v, Config)]
@@ -337,9 +342,9 @@ def main(argv):
                     variants.append((p, descr))
             for k, (p, descr) in enumerate(variants):
                 try:
-                    r = variant_record(p, rng, "g%d.v%d" % (i, k), src, descr, rec, n_inputs)
+                    r = variant_record(p, rng, "%s%d.v%d" % (pre, i, k), src, descr, rec, n_inputs)
                 except Exception as e:
-                    r = {"tag": "g%d.v%d" % (i, k), "status": "harness-error", "error": traceback.format_exc()[-1500:],
+                    r = {"tag": "%s%d.v%d" % (pre, i, k), "status": "harness-error", "error": traceback.format_exc()[-1500:],
                          "src": src, "sched": descr}
                 fo.write(json.dumps(r) + "\n")
                 fo.flush()
